@@ -509,6 +509,9 @@ type concJob struct {
 	lockOnly bool
 	linear   bool
 	bound    int
+	// all: one unbounded depth-first pass over every interleaving, capped at allCap of wall time.
+	all    bool
+	allCap time.Duration
 }
 
 // runConcShard is executed in a child process (GOMAXPROCS=1): explores the jobs assigned to this shard.
@@ -529,10 +532,29 @@ func runConcShard(jobs []concJob, shard, nshards int, deadline time.Time) {
 			fmt.Fprintf(os.Stderr, "shard %d: scenario %s\n", shard, j.cs.Name)
 		}
 		sc := env.mkScenario(j.cs, j.lockOnly, j.linear)
-		st, viols, err := sched.Explore(sc, j.bound, deadline, env.outcomeClassifier())
+		var st sched.Stats
+		var viols []sched.Violation
+		var err error
+		if j.all {
+			d := time.Now().Add(j.allCap)
+			if d.After(deadline) {
+				d = deadline
+			}
+			st, viols, err = sched.ExploreAll(sc, d, env.outcomeClassifier())
+			if err == nil && len(viols) == 0 && !st.AllInterleavings {
+				// Too large for the cap: fall back to the preemption bound.
+				j.all = false
+				st, viols, err = sched.Explore(sc, j.bound, deadline, env.outcomeClassifier())
+			}
+		} else {
+			st, viols, err = sched.Explore(sc, j.bound, deadline, env.outcomeClassifier())
+		}
 		mode := "rules"
 		if j.lockOnly {
 			mode = "lock-only"
+		}
+		if j.all {
+			mode += "/all-interleavings"
 		}
 		r := shardResult{Scenario: j.cs.Name, Mode: mode, Stats: st, Def: j.cs}
 		for _, th := range j.cs.Threads {
@@ -639,7 +661,7 @@ func concFinish(run *ev.Run, results []shardResult, err error, rule string) int 
 		run.HarnessErr = err
 		return run.Finish()
 	}
-	execs, maxPoints, deadlocks, uncontrolled := 0, 0, 0, 0
+	execs, maxPoints, deadlocks, uncontrolled, allDone := 0, 0, 0, 0, 0
 	boundDone := 1 << 30
 	budget := false
 	samples := ev.NewSamples(5)
@@ -656,18 +678,30 @@ func concFinish(run *ev.Run, results []shardResult, err error, rule string) int 
 		}
 		deadlocks += r.Stats.Deadlocks
 		uncontrolled += r.Stats.Uncontrolled
-		if r.Stats.BoundCompleted < boundDone {
-			boundDone = r.Stats.BoundCompleted
-		}
 		budget = budget || r.Stats.BudgetHit
 		per[r.Scenario+"/"+r.Mode] = map[string]any{"threads": r.Threads, "executions": r.Stats.Executions, "max_points": r.Stats.MaxPoints,
-			"bound_completed": r.Stats.BoundCompleted, "outcomes": r.Stats.Outcomes}
+			"bound_completed": r.Stats.BoundCompleted, "outcomes": r.Stats.Outcomes, "all_interleavings": r.Stats.AllInterleavings,
+			"max_preemptions": r.Stats.MaxPreemptions, "goroutine_mode": r.Stats.GoroutineMode}
+		if r.Stats.AllInterleavings {
+			allDone++
+		} else if r.Stats.BoundCompleted < boundDone {
+			boundDone = r.Stats.BoundCompleted
+		}
 		if len(r.Stats.Outcomes) > 1 || r.Mode == "lock-only" && r.Stats.Executions > 1 {
 			nontrivial++
 		}
 		samples.Add(map[string]any{"scenario": r.Scenario, "mode": r.Mode, "threads": r.Threads, "executions": r.Stats.Executions})
 		for _, v := range r.Violations {
 			run.Violate(v.Key, v.What, map[string]any{"check": run.ID, "scenario": r.Def, "mode": r.Mode, "choices": v.Choices, "schedule": v.Schedule, "preemptions": v.Preemptions, "goroutine_mode": v.PerG})
+		}
+	}
+	if boundDone == 1<<30 {
+		// No scenario was cut at a bound: report the largest number of preemptions any execution had.
+		boundDone = 0
+		for _, r := range results {
+			if r.Stats.MaxPreemptions > boundDone {
+				boundDone = r.Stats.MaxPreemptions
+			}
 		}
 	}
 	run.Coverage = map[string]any{
@@ -679,6 +713,7 @@ func concFinish(run *ev.Run, results []shardResult, err error, rule string) int 
 		"scenarios":           len(results),
 		"executions":          execs,
 		"bound_completed":     boundDone,
+		"scenarios_with_all_interleavings_explored": allDone,
 		"max_points":          maxPoints,
 		"deadlocks":           deadlocks,
 		"uncontrolled":        uncontrolled,
